@@ -1,6 +1,6 @@
 """C07 - every unbonded token is recorded in exactly one batch claim of its sender (DESIGN 6, C07)."""
 from ..callgraph import explore, storage_effects, message_effects, call_sites, written_value_in
-from ..expr import show, find
+from ..expr import show, find, arith_args
 from ..ledger import classify
 from .common import entry, msg_enum, variant_env, stored, where, arm_handler
 from .hub_common import (receive_handlers, subtree, HUBCFG, STATE, BATCH, NEWWAIT, OLDWAIT, HISTORY, TOKENS)
@@ -152,8 +152,8 @@ def run(prog, world, sem, rep):
                 l = sem.label(a)
                 if l is not None and l[0] == "param" and l[4][-1:] == ("amount",):
                     continue
-                if tk == "bsei" and a.op == "call" and a.info.endswith("checked_sub"):
-                    l0 = sem.label(a.args[0])
+                if tk == "bsei" and arith_args(a, "Sub") is not None:
+                    l0 = sem.label(arith_args(a, "Sub")[0])
                     if l0 is not None and l0[0] == "param" and l0[4][-1:] == ("amount",):
                         continue
                 okrel = False
